@@ -201,7 +201,9 @@ func ProfileFor(name string) (Knobs, bool) {
 	k, ok := Profiles[name]
 	if ok && long {
 		k.Scans *= 3
-		k.MaxNodes = 26
+		if k.MaxNodes < 26 {
+			k.MaxNodes = 26
+		}
 	}
 	return k, ok
 }
